@@ -21,6 +21,9 @@ fi
 if ! echo "$out" | grep -q "native: assert: x = -94 expected" || ! echo "$out" | grep -q "native: assert: c = 17 expected"; then
   echo "SELFTEST FAILED: division/shift counterexamples must be found and replay natively"; exit 1
 fi
+if ! echo "$out" | grep -q "native: assert: c = 113 expected"; then
+  echo "SELFTEST FAILED: string(symbolic rune)"; exit 1
+fi
 python3 selftest/t01gen.py || { echo "SELFTEST FAILED: native digests"; exit 1; }
 out=$(./.build/symgo run -prop T01 -tier quick 2>&1); rc=$?
 echo "$out" | tail -3
